@@ -47,6 +47,9 @@ def evaluate(rep, prop, progs, results, oracle, known, stuck_is_violation=True):
         viol = []
         if res.result.startswith("result crashed"):
             viol.append("the runtime crashed: " + res.result)
+        if res.result.startswith("result hung"):
+            last = next((l for l in reversed(res.trace) if l.startswith("call ") or l.startswith("h ")), "")
+            viol.append("the runtime hung (no progress in 10 s of real time) after `%s`" % last)
         viol += oracle(res)
         if stuck_is_violation:
             for i, v in res.stuck_notes:
